@@ -234,8 +234,17 @@ class SourceToSourceFileImportsTransformation(SourceToSourceTransformationBase):
         # Get the "statements" in the first block.
         statements = self.blocks[0].input.statements
         # Find the insertion point.
+        seen_docstring = False
         for idx, statement in enumerate(statements):
-            if not statement.is_comment_or_blank_or_string_literal:
+            is_prologue = statement.is_comment_or_blank_or_string_literal
+            if is_prologue and not statement.is_comment_or_blank:
+                # A string literal.  Only the first one is the docstring; new
+                # imports (e.g. "from __future__ import ...") can't go after
+                # a second one.
+                if seen_docstring:
+                    is_prologue = False
+                seen_docstring = True
+            if not is_prologue:
                 if idx == 0:
                     # First block starts with a noncomment, so insert before
                     # it.
